@@ -7,7 +7,8 @@ ID = "C15"
 LEAN_MODULE = "HexProps.C15"
 SCOPE = [("manager.trim", 400, 60), ("ind.life:ALL", 150, 40), ("hexital.life", 60, 40)]
 ORACLE_RULE = ("C15b: purely recursive indicators appended one candle at a time under a lifespan that always keeps the predecessor, compared exactly with an untrimmed twin; C15a: random stream x lifespan x optional timeframe/fill x append schedule on the real CandleManager; retained candles compared exactly "
-               "with the independently computed window of the (resampled) stream after every append")
+               "with the independently computed window of the (resampled) stream after every append; the same for every manager of a Hexital with a "
+               "Hexital-level lifespan (zero included) and members on several timeframes")
 ASSUMPTIONS = ["TZ=UTC for this check", "lifespan >= 0"]
 PARTIAL = 'window clause proved for every schedule, without and with a collapsing timeframe; readings clause proved for EVERY leaf indicator class over every construction prefix and append schedule (C15b_leaf: look-back max(1, window k) retained at each popping append; C15b_FULL_holds: EMA/RMA without seededness) from the bounded-footprint theorem; composites, Hexital members and the combination with a timeframe (C15b_trees_FULL): correspondence + oracle with an untrimmed twin at the tightest admissible window'
 _case = om.make_case(ID, tf="maybe", life=True)
@@ -18,7 +19,9 @@ def oracle(ctx):
     n = (300 if ctx["tier"] == "quick" else 3000) * ctx["boost"]
     sz = {"size": 60 if ctx["tier"] == "quick" else 200}
     return cm.merge_results(cm.run_cases(_case, ctx["seed"], ID, n, sz), cm.run_cases(_case_fill, ctx["seed"], ID + "f", n // 4, sz),
-                            cm.run_cases(fw.c15b_case, ctx["seed"], ID + "b", n, sz))
+                            cm.run_cases(fw.c15b_case, ctx["seed"], ID + "b", n, sz),
+                            cm.run_cases(fw.c15b_window_case, ctx["seed"], ID + "w", n, sz),
+                            cm.run_cases(om.case_hexital_tfs, ctx["seed"], ID + "hx", n // 3, {**sz, "life": True, "pid": ID}))
 
 
 def replay(w):
